@@ -207,3 +207,53 @@ example : okOp [{ path := { fs := 0, dir := 3, name := "x", final := false }, by
     (.rename { fs := 0, dir := 3, name := "x", final := false } fin) = false := by decide
 
 end ExecModel.C14Pub
+
+namespace ExecModel.C14Pub
+open ExecModel ExecModel.Pub
+
+/-! ### the cache writer of executorlib, for every number and size of datasets -/
+
+/-- `dump(file_name=tmp, data_dict)` (one open / append / close per dataset) followed by
+    `os.rename(tmp, final)`: the calls `_execute_task_with_cache` makes for one entry. -/
+def writerOps (tmpP finP : Path) (chunks : List Nat) : List Op :=
+  [.create tmpP, .close tmpP] ++ chunks.flatMap (fun n => [.reopen tmpP, .write tmpP n, .close tmpP]) ++ [.rename tmpP finP]
+
+theorem run_chunks (tmpP : Path) (b : Nat) (chunks : List Nat) (ht : tmpP.final = false) :
+    runD [{ path := tmpP, bytes := b, writers := 0 }] (chunks.flatMap (fun n => [Op.reopen tmpP, .write tmpP n, .close tmpP]))
+      = some [{ path := tmpP, bytes := b + chunks.sum, writers := 0 }] := by
+  induction chunks generalizing b with
+  | nil => simp [runD]
+  | cons n ns ih =>
+    simp only [List.flatMap_cons, List.cons_append, List.nil_append, runD, stepD, okOp, ht, Bool.not_false, if_true, step,
+      List.map_cons, List.map_nil]
+    simp only [if_true, Nat.zero_add, Nat.add_sub_cancel]
+    rw [ih (b + n)]
+    simp [List.sum_cons, Nat.add_assoc]
+
+theorem runD_append (s : State) (a b : List Op) :
+    runD s (a ++ b) = (runD s a).bind (fun s' => runD s' b) := by
+  induction a generalizing s with
+  | nil => simp [runD]
+  | cons op a ih =>
+    simp only [List.cons_append, runD]
+    cases stepD s op with
+    | none => simp
+    | some s' => simp [ih]
+
+/-- **The writer's calls are a disciplined trace, for every entry**: whatever the number and the
+    sizes of the datasets, the trace is accepted by `runD` and ends with exactly the complete entry
+    under its final name — so `inv_every_prefix` applies to every instant of it. -/
+theorem writer_trace_disciplined (tmpP finP : Path) (chunks : List Nat)
+    (ht : tmpP.final = false) (hf : finP.final = true) (hfs : tmpP.fs = finP.fs) (hd : tmpP.dir = finP.dir) :
+    runD [] (writerOps tmpP finP chunks) = some [{ path := finP, bytes := chunks.sum, writers := 0 }] := by
+  have hne : tmpP ≠ finP := fun e => by rw [e] at ht; simp [hf] at ht
+  simp only [writerOps, List.append_assoc, runD_append]
+  have h1 : runD [] [Op.create tmpP, .close tmpP] = some [{ path := tmpP, bytes := 0, writers := 0 }] := by
+    simp [runD, stepD, okOp, ht, step]
+  rw [h1]
+  simp only [Option.bind_some]
+  rw [run_chunks tmpP 0 chunks ht]
+  simp only [Option.bind_some, Nat.zero_add]
+  simp [runD, stepD, okOp, hf, ht, hfs, hd, step, setPath, hne]
+
+end ExecModel.C14Pub
